@@ -9,6 +9,7 @@
 From Coq Require Import ZArith List Bool Permutation.
 Import ListNotations.
 From Verif Require Import Model.Inventory Model.Balance Proofs.InventoryProofs.
+From Verif Require Model.Inventory Model.PrimsEnvLedger Gen.SrcEnvLedger Proofs.SrcEnvLedger.
 Open Scope Z_scope.
 
 (* ---------------- the finite-map view is faithful ---------------- *)
@@ -285,3 +286,74 @@ Example C12_source_balance_example :
   run f2 [] = Ok (rowst_fields (mkrow 2 [((1, None), 10)] (Some (2, [((1, None), 10)]))) (Inv.enc_position p) PNone,
                   Inv.enc_inv [((1, None), 10)]).
 Proof. vm_compute. repeat split; reflexivity. Qed.
+
+(* ---- tie by translation, group `envledger`: the SOURCE of the BQL functions units / cost / value / convert (amount,
+   position and inventory overloads), getprice, number, currency and filter_currency (position) of query_env.py, translated
+   into PyMini on every run (Gen/SrcEnvLedger.v), computes the reducers of Model/Inventory.v - for every argument and
+   for EVERY price function, fixed-point unit and currency upper-casing (Model/PrimsEnvLedger.v; proofs in
+   Proofs/SrcEnvLedger.v).  `context.tables['prices'].price_map` is the first parameter. ---- *)
+Import Verif.Model.PrimsEnvLedger Verif.Gen.SrcEnvLedger Verif.Proofs.SrcEnvLedger.
+
+Theorem C12_source_position_units : forall (price : Inventory.currency -> Inventory.currency -> option Z -> option Z) (one : Z) (upper : Inventory.currency -> Inventory.currency) (call_ref : nat -> list pv -> pv), forall p, call_function call_ref (prim_envledger price one upper) envl_position_units [Inv.enc_position p] = Ok (enc_iamount (Inventory.get_units p)).
+Proof. exact position_units_src. Qed.
+Print Assumptions C12_source_position_units.
+
+Theorem C12_source_inventory_units : forall (price : Inventory.currency -> Inventory.currency -> option Z -> option Z) (one : Z) (upper : Inventory.currency -> Inventory.currency) (call_ref : nat -> list pv -> pv), forall i, call_function call_ref (prim_envledger price one upper) envl_inventory_units [Inv.enc_inv i] = Ok (Inv.enc_inv (Inventory.inventory_units i)).
+Proof. exact inventory_units_src. Qed.
+Print Assumptions C12_source_inventory_units.
+
+Theorem C12_source_position_cost : forall (price : Inventory.currency -> Inventory.currency -> option Z -> option Z) (one : Z) (upper : Inventory.currency -> Inventory.currency) (call_ref : nat -> list pv -> pv), forall p, call_function call_ref (prim_envledger price one upper) envl_position_cost [Inv.enc_position p] = Ok (enc_iamount (Inventory.get_cost one p)).
+Proof. exact position_cost_src. Qed.
+Print Assumptions C12_source_position_cost.
+
+Theorem C12_source_inventory_cost : forall (price : Inventory.currency -> Inventory.currency -> option Z -> option Z) (one : Z) (upper : Inventory.currency -> Inventory.currency) (call_ref : nat -> list pv -> pv), forall i, call_function call_ref (prim_envledger price one upper) envl_inventory_cost [Inv.enc_inv i] = Ok (Inv.enc_inv (Inventory.inventory_cost one i)).
+Proof. exact inventory_cost_src. Qed.
+Print Assumptions C12_source_inventory_cost.
+
+Theorem C12_source_position_value : forall (price : Inventory.currency -> Inventory.currency -> option Z -> option Z) (one : Z) (upper : Inventory.currency -> Inventory.currency) (call_ref : nat -> list pv -> pv), forall p d, call_function call_ref (prim_envledger price one upper) envl_position_value [p_price_map; Inv.enc_position p; enc_odate d] = Ok (enc_iamount (Inventory.get_value price one d p)).
+Proof. exact position_value_src. Qed.
+Print Assumptions C12_source_position_value.
+
+Theorem C12_source_inventory_value : forall (price : Inventory.currency -> Inventory.currency -> option Z -> option Z) (one : Z) (upper : Inventory.currency -> Inventory.currency) (call_ref : nat -> list pv -> pv), forall i d, call_function call_ref (prim_envledger price one upper) envl_inventory_value [p_price_map; Inv.enc_inv i; enc_odate d] = Ok (Inv.enc_inv (Inventory.inventory_value price one d i)).
+Proof. exact inventory_value_src. Qed.
+Print Assumptions C12_source_inventory_value.
+
+Theorem C12_source_convert_amount : forall (price : Inventory.currency -> Inventory.currency -> option Z -> option Z) (one : Z) (upper : Inventory.currency -> Inventory.currency) (call_ref : nat -> list pv -> pv), forall a c d, call_function call_ref (prim_envledger price one upper) envl_convert_amount [p_price_map; enc_iamount a; PInt c; enc_odate d] = Ok (enc_iamount (Inventory.convert_amount price one None c d a)).
+Proof. exact convert_amount_src. Qed.
+Print Assumptions C12_source_convert_amount.
+
+Theorem C12_source_convert_position : forall (price : Inventory.currency -> Inventory.currency -> option Z -> option Z) (one : Z) (upper : Inventory.currency -> Inventory.currency) (call_ref : nat -> list pv -> pv), forall p c d, call_function call_ref (prim_envledger price one upper) envl_convert_position [p_price_map; Inv.enc_position p; PInt c; enc_odate d] = Ok (enc_iamount (Inventory.convert_position price one c d p)).
+Proof. exact convert_position_src. Qed.
+Print Assumptions C12_source_convert_position.
+
+Theorem C12_source_convert_inventory : forall (price : Inventory.currency -> Inventory.currency -> option Z -> option Z) (one : Z) (upper : Inventory.currency -> Inventory.currency) (call_ref : nat -> list pv -> pv), forall i c d, call_function call_ref (prim_envledger price one upper) envl_convert_inventory [p_price_map; Inv.enc_inv i; PInt c; enc_odate d] = Ok (Inv.enc_inv (Inventory.inventory_convert price one c d i)).
+Proof. exact convert_inventory_src. Qed.
+Print Assumptions C12_source_convert_inventory.
+
+Theorem C12_source_getprice : forall (price : Inventory.currency -> Inventory.currency -> option Z -> option Z) (one : Z) (upper : Inventory.currency -> Inventory.currency) (call_ref : nat -> list pv -> pv), forall b q d, call_function call_ref (prim_envledger price one upper) envl_getprice [p_price_map; PInt b; PInt q; enc_odate d] = Ok (enc_orate (price (upper b) (upper q) d)).
+Proof. exact getprice_src. Qed.
+Print Assumptions C12_source_getprice.
+
+Theorem C12_source_number : forall (price : Inventory.currency -> Inventory.currency -> option Z -> option Z) (one : Z) (upper : Inventory.currency -> Inventory.currency) (call_ref : nat -> list pv -> pv), forall a : Inventory.amount, call_function call_ref (prim_envledger price one upper) envl_number [enc_iamount a] = Ok (PInt (fst a)).
+Proof. exact number_src. Qed.
+Print Assumptions C12_source_number.
+
+Theorem C12_source_currency : forall (price : Inventory.currency -> Inventory.currency -> option Z -> option Z) (one : Z) (upper : Inventory.currency -> Inventory.currency) (call_ref : nat -> list pv -> pv), forall a : Inventory.amount, call_function call_ref (prim_envledger price one upper) envl_currency [enc_iamount a] = Ok (PInt (snd a)).
+Proof. exact currency_src. Qed.
+Print Assumptions C12_source_currency.
+
+Theorem C12_source_filter_currency_position : forall (price : Inventory.currency -> Inventory.currency -> option Z -> option Z) (one : Z) (upper : Inventory.currency -> Inventory.currency) (call_ref : nat -> list pv -> pv), forall p c, call_function call_ref (prim_envledger price one upper) envl_filter_currency_position [Inv.enc_position p; PInt c] = Ok (if Inventory.pcur p =? c then Inv.enc_position p else PNone).
+Proof. exact filter_currency_position_src. Qed.
+Print Assumptions C12_source_filter_currency_position.
+
+(* Non-vacuity: cost(position) on 3 units held at cost 7 in currency 2, and convert of a position through its cost
+   currency (no direct price 1 -> 3; 1 -> 2 at 5 and 2 -> 3 at 11), with [one] = 1. *)
+Example C12_source_envledger_example :
+  let price := fun (b q : Inventory.currency) (_ : option Z) =>
+    if (b =? 1) && (q =? 2) then Some 5 else if (b =? 2) && (q =? 3) then Some 11 else None in
+  let p := mkpos 3 1 (Some (mkcost 7 2 0 None)) in
+  call_function (fun _ _ => PNone) (prim_envledger price 1 (fun c => c)) envl_position_cost [Inv.enc_position p]
+    = Ok (enc_iamount (21, 2)) /\
+  call_function (fun _ _ => PNone) (prim_envledger price 1 (fun c => c)) envl_convert_position
+    [p_price_map; Inv.enc_position p; PInt 3; PNone] = Ok (enc_iamount (165, 3)).
+Proof. split; vm_compute; reflexivity. Qed.
